@@ -213,12 +213,12 @@ PROPS = {
             "offsetof/sizeof table); (R-RECTAB) the S-record address-width table and the HEX/SREC record-type constants equal the "
             "published formats; (R-CKSUM) record checksums control rejection on every path; (R-ENTRY) the entry point is stored in "
             "the attribute the entrypoints property returns; (R-UNION) a query result that may be a section or a program header is "
-            "not used with a field of only one of them, and guarded copies are the ones used; (R-NAME/R-PRIV) no unresolved name "
+            "not used with a field of only one of them, and guarded copies are the ones used; (R-TABWALK) the 24 table-walking loops advance their cursor on every path that reads an entry; (R-GEOM) the table geometry fields a file declares flow into read positions / loop bounds of the ELF and PE constructors; (R-NAME/R-PRIV) no unresolved name "
             "or never-stored private attribute in the 264 functions of the format modules. Does NOT decide values parsed from "
             "arbitrary files, symbol-name decoding, offset arithmetic over tables; PE and Mach-O layouts are not compared (no "
             "reference header available offline)."
         ),
-        rules=[(R_fm.r_structref_elf, Q), (R_fm.r_rectab, Q), (R_fm.r_cksum, Q), (R_fm.r_entry, Q), (R_fm.r_union, Q), (R_fm.r_name_formats, Q), (R_fm.r_priv_formats, Q)],
+        rules=[(R_fm.r_structref_elf, Q), (R_fm.r_rectab, Q), (R_fm.r_cksum, Q), (R_fm.r_entry, Q), (R_fm.r_union, Q), (R_fm.r_tabwalk, Q), (R_fm.r_geom, Q), (R_fm.r_name_formats, Q), (R_fm.r_priv_formats, Q)],
         level_text="partial: table = reference comparison for all 16 ELF layouts (with symbolic interpretation of the 64-bit edit scripts), CFG must-raise check of the two checksum comparisons, scope/attribute checks over every function of the six format modules; the tests open 8 sample files and never a corrupted record or a 64-bit note",
         level_note="Trusted: vstat.structmodel (StructDefine language read from its docstring, natural-alignment layout, the closed set of edit idioms: any other statement on `fields` makes the class undecided); ref/elf_layout.json generated from /usr/include/elf.h with gcc (generator committed); ref/records.json hand-written.",
         technique="table = vendored reference comparison with an interpreter of field-list edit scripts; must-raise on CFG; scope resolution",
